@@ -65,9 +65,19 @@ def build(case, rng):
              "wheel": nx.wheel_graph}[case["shape"]](n)
         d = "%s%d" % (case["shape"], n)
     g = nx.Graph(g)
-    if rng.random() < 0.5:
+    r = rng.random()
+    if r < 0.4:
         labels = rng.sample(range(0, 200), g.number_of_nodes())
         g = nx.relabel_nodes(g, dict(zip(list(g.nodes()), labels)))
+    elif r < 0.55:
+        g = nx.relabel_nodes(g, {v: "v%d" % v for v in g.nodes()})      # vertex ids need not be ints
+    if rng.random() < 0.5:
+        # insertion order / edge orientation of the motif graph are free
+        h = nx.Graph()
+        ns = list(g.nodes()); rng.shuffle(ns)
+        es = [e if rng.random() < 0.5 else (e[1], e[0]) for e in g.edges()]; rng.shuffle(es)
+        h.add_nodes_from(ns); h.add_edges_from(es)
+        g = h
     return d, g
 
 
@@ -140,7 +150,7 @@ def run_case(case):
     n0 = NONINTEGRAL_FLOATS[0]
     if case["kind"] != "history":
         d, g = build(case, rng)
-        ctx = {"motif": d, "edges": sorted(map(tuple, map(sorted, g.edges())))}
+        ctx = {"motif": d, "edges": sorted(map(tuple, (sorted(e, key=str) for e in g.edges())), key=str)}
         res.count("motifs")
         res.seen("edge_counts", g.number_of_edges())
         shared = sut("AutomatedEquation()", AutomatedEquation)
